@@ -68,6 +68,9 @@ func (p *regExpParser) scan() {
 		case '[':
 			p.pass()
 			p.scanBracket()
+		case '^', '$':
+			p.pass()
+			p.scanAssertionEnd()
 		case ')':
 			p.error(-1, "Unmatched ')'")
 			p.invalid = true
@@ -99,6 +102,9 @@ func (p *regExpParser) scanGroup() {
 		case '[':
 			p.pass()
 			p.scanBracket()
+		case '^', '$':
+			p.pass()
+			p.scanAssertionEnd()
 		default:
 			p.pass()
 			continue
@@ -217,6 +223,15 @@ func (p *regExpParser) scanEscape(inClass bool) {
 		fallthrough
 
 	case 'B':
+		if !inClass {
+			err := p.goRegexp.WriteByte('\\')
+			if err != nil {
+				p.errors = append(p.errors, err)
+			}
+			p.pass()
+			p.scanAssertionEnd()
+			return
+		}
 		fallthrough
 
 	case 'd', 'D', 's', 'S', 'w', 'W':
@@ -346,4 +361,35 @@ func (p *regExpParser) pass() {
 func (p *regExpParser) error(offset int, msg string, msgValues ...interface{}) { //nolint:unparam
 	err := fmt.Errorf(msg, msgValues...)
 	p.errors = append(p.errors, err)
+}
+
+// scanAssertionEnd is called after an assertion (^ $ \b \B) has been passed:
+// an assertion cannot be followed by a quantifier ("Nothing to repeat").
+func (p *regExpParser) scanAssertionEnd() {
+	switch p.chr {
+	case '*', '+', '?':
+	case '{':
+		// Only {n} {n,} {n,m} are quantifiers, anything else is a literal {
+		str := p.str[p.chrOffset+1:]
+		i := 0
+		for i < len(str) && '0' <= str[i] && str[i] <= '9' {
+			i++
+		}
+		if i == 0 {
+			return
+		}
+		if i < len(str) && str[i] == ',' {
+			i++
+			for i < len(str) && '0' <= str[i] && str[i] <= '9' {
+				i++
+			}
+		}
+		if i >= len(str) || str[i] != '}' {
+			return
+		}
+	default:
+		return
+	}
+	p.error(-1, "Nothing to repeat")
+	p.invalid = true
 }
